@@ -120,6 +120,18 @@ PROPS["C01"] = {
     "assumptions": ["at most 6000 selections per run"],
 }
 
+PROPS["C10"] = {
+    "harness": "rrsim", "test": "TestC10", "quick_s": 30, "thorough_s": 900, "batch": 50,
+    "rule": "one evaluation = one simulated history against the real Rebalancer over the real RoundRobin under the simulated clock: 2-6 servers with configured weights 1-5000 (0 via re-weight), back-off 1ms-1min, "
+            "a scripted Meter per server (rating/readiness patterns: healthy, one/minority/majority/all bad, random, flapping, not ready, recovering) or the real default meter fed by simulated backend status codes, 10-200 operations "
+            "(requests, requests one back-off apart, clock advances, rating changes, membership and configured-weight changes); oracle after every request: weight range, back-off spacing, immediate restore after admin calls, no outlier gains share under clear-cut ratings, "
+            "outliers lose share within two opportunities, convergence to configured proportions within six adjustments of equal ratings; non-trivial = the rebalancer changed weights at least once; distinct = hash of the recorded history",
+    "technique": "deterministic simulation: seeded rating/readiness fault scripts, membership changes and clock advances against the real rebalancer; invariant and bounded-progress oracles on the effective weights after every request (exact rational share comparison)",
+    "level_text": "seeded search over rating histories, weight vectors, back-off durations and membership changes; sampled, not exhaustive",
+    "level_note": RR_NOTE + "; direction and loss-of-share are only judged when ratings are clear-cut (strict minority rated >= 0.5, everyone else <= 0.05) so that no constant of the outlier-split rule is assumed; effective weight = weight of the server in the balancer beneath the rebalancer",
+    "assumptions": ["only forward clock steps", "sequential requests (the property quantifies over histories, not schedules; C09 covers concurrency)"],
+}
+
 PENDING = "check not built yet in this session (planned, see DESIGN.md section 4); not claimed until its harness exists"
 NOT_APPLICABLE = {pid: PENDING for pid in ["C%02d" % i for i in range(1, 21)]}
 NOT_APPLICABLE["C19"] = ("pure function of one request's RemoteAddr/Host/header to a token: no schedule, clock, fault, I/O or multi-party behaviour for a "
